@@ -1565,6 +1565,7 @@ def text_edit(rng, text):
     kind = rng.choice(["dup-after", "dup-after", "dup-before", "dup-play-key", "dup-play-key", "merge-inline", "merge-shadowed",
                        "merge-own-subtree", "merge-own-subtree", "merge-own-signed", "merge-earlier", "alias-value", "second-doc", "second-doc-first",
                        "chain-inline", "chain-inline", "chain-inline", "chain-anchors", "chain-anchors", "chain-list", "chain-task", "chain-vars",
+                       "spelling-verbatim", "spelling-verbatim", "spelling-verbatim", "spelling-shorthand", "spelling-handle",
                        "tag-scalar", "tag-scalar", "tag-collection", "style", "style", "style-int", "comment", "comment", "whitespace", "doc-markers"])
     if kind in ("dup-after", "dup-before", "merge-inline", "merge-shadowed", "tag-scalar", "style", "comment", "merge-earlier", "alias-value") and not simple:
         return None
@@ -1586,6 +1587,36 @@ def text_edit(rng, text):
         else:
             extra = [pind + "%s: evil-%d" % (k, n)]
         return kind + ":" + k, join(lines + extra)
+    if kind.startswith("spelling-"):
+        # a merge key that is not written '<<': the explicit tag, verbatim / shorthand / through a %TAG handle (the text has no '<<' at all)
+        if "<<" in text or not simple:
+            return None
+        VERB = "!<tag:yaml.org,2002:merge>"
+        tag = {"spelling-verbatim": VERB, "spelling-shorthand": "!!merge", "spelling-handle": "!y!merge"}[kind]
+        deep = rng.choice(["evil_%d: DEEPVAL" % n, "evil_%d: [DEEPVAL, 2]" % n, "pre_tasks: [{command: DEEPVAL}]", "evil_%d: {k: DEEPVAL}" % n])
+        form = rng.choice(["inline", "inline", "alias", "list", "chain"])
+        key = rng.choice(["k", "anykey", "m%d" % n])
+        where = rng.choice(["play", "play", "below"])
+        cand = [(i, m) for i, m in simple if (ind_of(m) == pind) == (where == "play")] or simple
+        i, m = rng.choice(cand)
+        ls = list(lines)
+        if form == "inline":
+            val = "{%s}" % deep
+        elif form == "chain":
+            val = "{mid_%d: 1, %s inner: {%s}}" % (n, tag, deep)
+        elif form == "list":
+            val = "[{first_%d: 1}, {%s}]" % (n, deep)
+        else:
+            c = [(j, mm) for j, mm in simple if mm.group("key") == "hosts" and mm.group("ind") in (pind, lines[0][:len(pind) - 2] + "- ") and j < i]
+            if not c:
+                return None
+            j, mm = c[0]
+            ls[j] = "%shosts: &anc%d {%s}" % (mm.group("ind"), n, deep)
+            val = "*anc%d" % n
+        ls = ls[:i + 1] + ["%s%s %s: %s" % (ind_of(m), tag, key, val)] + ls[i + 1:]
+        if kind == "spelling-handle":
+            ls = ["%TAG !y! tag:yaml.org,2002:", "---"] + ls
+        return "%s:%s:%s" % (kind, form, where), join(ls)
     if kind.startswith("chain-"):
         # a merged mapping that itself carries a merge key, 2-4 levels deep; DEEPVAL marks a value of the deepest level
         deep = rng.choice(["evil_%d: DEEPVAL" % n, "evil_%d: [DEEPVAL, 2]" % n, "evil_%d: {k: DEEPVAL}" % n, "pre_tasks: [{command: DEEPVAL}]",
@@ -1815,7 +1846,9 @@ def run_text_and_encoding(chk, quick):
                 # a value inside the deepest level of the chain changes: the digest must follow
                 check_text_pair(chk, text1, text2, kind + ":deepest-value", o1, d1)
                 chk.count("text:chain-deepest-value-changed")
-            if d1[0] == "ok" and d1[2].get("merge") and set(d1[2]) <= {"merge", "play-level-merge"} and o1[0] == "digests" and len(d1[1]) == 1:
+            if d1[0] == "ok" and d1[2].get("merge") and set(d1[2]) <= {"merge", "play-level-merge"} and o1[0] == "digests" and len(d1[1]) == 1 \
+                    and not kind.startswith(("spelling-shorthand", "spelling-handle")):
+                # ('!!merge k:' and %TAG handles are not merge keys for the vendored loader: the entry is in the digest as a tagged key)
                 # the digest must be that of the explicitly written play (what a merge-expanding consumer sees)
                 try:
                     explicit = dump_yaml([to_ruamel(d1[1][0])])
@@ -1855,7 +1888,7 @@ def run_text_and_encoding(chk, quick):
             continue
         for k in c["cases"]:
             o = text_outcome(k["text"])
-            same = text_outcome(k["same_digest_as"])
+            same = text_outcome(k["same_digest_as"]) if k.get("same_digest_as") else o
             other = text_outcome(k["other_digest_than"]) if k.get("other_digest_than") else None
             ok = o[0] == "digests" and o == same and (other is None or o != other)
             chk.witnesses.append({"corpus": c["file"], "case": k["what"], "holds": ok})
